@@ -902,6 +902,13 @@ def FS.step (fs : FS) : Call → FS
 
 def FS.run (fs : FS) (cs : List Call) : FS := cs.foldl FS.step fs
 
+/-- a crash INSIDE call `c`: of a `write` (stdio flushing its buffer block by block, a disk filling up) any prefix
+    `d'` of the data may have reached the temporary; the other calls are single system calls (fopen = open/creat,
+    rename, unlink): before or after, nothing in between (rename: the stated assumption) -/
+def FS.partialStep (fs : FS) : Call → List Byte → FS
+  | .write _, d' => { fs with tmp := fs.tmp.map (· ++ d') }
+  | _, _ => fs
+
 /-- The calls save_object makes when the call number `fail` (0-based; `none`: no failure) reports an error,
     together with its return value.  `chunks` = header line followed by the variable lines. -/
 def saveScript (chunks : List (List Byte)) (fail : Option Nat) : List Call × Nat :=
